@@ -157,16 +157,47 @@ def w_peek_then_parse(chk, fn_name, token):
     return True if token in src else None
 
 
+def w_peek_member(chk):
+    """peek_member(input) must imply that `parse::<Member>()` succeeds on the same stream: syn's Member::parse accepts exactly
+    an Ident or an Index (unsuffixed integer literal <= u32::MAX). Sound recognisers: input.peek(Ident), a forked
+    parse::<syn::Index>() / parse::<Member>() that is_ok(). A bare LitInt / Lit peek is known-unsound (suffixed or oversized
+    integers pass the peek and fail Member::parse)."""
+    fi = chk.repo.fn(ATTR, "peek_member")
+    src = render(fi.body).replace(" ", "")
+    if re.search(r"peek2?\((syn::)?(LitInt|Lit|LitFloat)\)", src):
+        return False
+    sound = [r"input\.peek\((syn::)?Ident\)", r"fork\.parse::<(syn::)?Index>\(\)\.is_ok\(\)", r"fork\.parse::<(syn::)?Member>\(\)\.is_ok\(\)"]
+    rest = src
+    for rx in sound:
+        rest = re.sub(rx, "S", rest)
+    rest = rest.replace("letfork=input.fork();", "")
+    # what remains must be a pure disjunction of sound recognisers
+    if re.fullmatch(r"\{?(ifS\{returntrue;?\}|S\|\|)*S\}?", rest):
+        return True
+    return None
+
+
+def w_all(*ws):
+    def f(chk):
+        rs = [w(chk) for w in ws]
+        if any(r is False for r in rs):
+            return False
+        if any(r is None for r in rs):
+            return None
+        return True
+    return f
+
+
 # site-key regex (+ optional root / subcase) -> (class, reason, witness)
 TABLE = [
     (r"^<TypePath as From<syn::Path>>::from:value\.segments\.last\(\)\.unwrap\(\)", None, "G1", "syn::Path always has at least one segment (syn invariant)", None),
     (r"^<TypePath as From<syn::Path>>::from:cl\.segments\.last_mut\(\)\.unwrap\(\)", None, "G1", "clone of a non-empty path", None),
     (r"^try_parse_container_ident:input\.parse::<Token!\[\|\]>\(\)\.unwrap\(\)", None, "G1", "guarded by input.peek(Token![|]) on the same stream",
      lambda chk: w_peek_then_parse(chk, "try_parse_container_ident", "ifinput.peek(Token!(|)){input.parse::<Token![|]>().unwrap()")),
-    (r"^try_parse_optional_ident:input\.parse::<Token!\[,\]>\(\)\.unwrap\(\)", None, "G1", "guarded by input.peek2(Token![,]) after a member was parsed",
-     lambda chk: w_peek_then_parse(chk, "try_parse_optional_ident", "input.peek2(Token!(,))")),
-    (r"^try_parse_optional_ident:fork\.parse::<Member>\(\)\.unwrap\(\)", None, "G1", "guarded by peek_member(input) on the forked stream",
-     lambda chk: w_peek_then_parse(chk, "try_parse_optional_ident", "ifpeek_member(input){letfork=input.fork();fork.parse::<Member>().unwrap()")),
+    (r"^try_parse_optional_ident:input\.parse::<Token!\[,\]>\(\)\.unwrap\(\)", None, "G1", "guarded by peek_member(input) && input.peek2(Token![,]): the member parse consumes exactly one token, then the comma is next",
+     w_all(lambda chk: w_peek_then_parse(chk, "try_parse_optional_ident", "if(peek_member(input)&&input.peek2(Token!(,))){letident=input.parse::<Member>().ok();input.parse::<Token![,]>().unwrap()"), w_peek_member)),
+    (r"^try_parse_optional_ident:fork\.parse::<Member>\(\)\.unwrap\(\)", None, "G1", "guarded by peek_member(input) on the forked stream; peek_member implies Member::parse succeeds",
+     w_all(lambda chk: w_peek_then_parse(chk, "try_parse_optional_ident", "ifpeek_member(input){letfork=input.fork();fork.parse::<Member>().unwrap()"), w_peek_member)),
     (r"^quote_try_(from|into|into_existing)_trait:ctx\.struct_attr\.err_ty\.as_ref\(\)\.unwrap\(\)", None, "G2",
      "validation rejects fallible instructions without an error type, for all 6 fallible conversions",
      lambda chk: w_c15_class(chk, ["class[missing error type]", "validate_struct_attrs[fallible=*"] + [f"validate_struct_attrs[{k},True]" for k in ("FromOwned", "FromRef", "OwnedInto", "RefInto", "OwnedIntoExisting", "RefIntoExisting")])),
